@@ -340,6 +340,16 @@ def rule_D3(ctx):
                 if inside and names & {'TypeError', 'Exception', '*'} and rets and all(
                         isinstance(x.value, ast.Constant) and x.value.value is False for x in rets):
                     ok = True
+                # the same through a result variable: `except TypeError: same = False` ... `return same` right after the try
+                if inside and names & {'TypeError', 'Exception', '*'} and not rets and len(h.body) == 1 and isinstance(h.body[0], ast.Assign) \
+                        and len(h.body[0].targets) == 1 and isinstance(h.body[0].targets[0], ast.Name) \
+                        and isinstance(h.body[0].value, ast.Constant) and h.body[0].value.value is False:
+                    v = h.body[0].targets[0].id
+                    body = eq.node.body
+                    if t in body and body.index(t) + 1 < len(body):
+                        nxt = body[body.index(t) + 1]
+                        if isinstance(nxt, ast.Return) and isinstance(nxt.value, ast.Name) and nxt.value.id == v and not t.finalbody and not t.orelse:
+                            ok = True
         if not conv:
             deleg = [n for n in own_walk(eq.node) if isinstance(n, ast.Call) and isinstance(n.func, ast.Attribute) and n.func.attr == '__eq__']
             if deleg:
